@@ -93,7 +93,13 @@ def c05_process_block(report, cfg):
         def go():
             bv.reset()
             it = Interp(f, MODELS, hooks=tf_hooks(None))
-            key = find(f, r"^skein_hash::%s::<%s>::process_block$" % (name, re.escape(t.split("<", 1)[1][:-1])))
+            ks = f.find(r"^skein_hash::%s::<%s>::process_block$" % (name, re.escape(t.split("<", 1)[1][:-1])))
+            if len(ks) != 1:
+                # a private helper: when it does not exist (renamed, split, inlined) this lemma has no subject;
+                # the UBI chaining is then decided by R5.3 / R5.4 / R5.6 alone
+                report.note("R5.1 skipped for %s: no private function process_block (the rule is a lemma about it)" % name)
+                return
+            key = ks[0]
             inst = f.instances[key]
             st_t = it.ty.get(inst["body"]["locals"][1])["pointee"]
             t0, t1 = bv.inp("t0", 64), bv.inp("t1", 64)
@@ -208,8 +214,8 @@ def c05_update(report, cfg):
             continue
         done.add(name)
         upd = find(f, r"^<%s as digest::Update>::update::<&\[u8\]>$" % re.escape(t))
-        for p in (0, 1, nb - 1, nb):
-            for ln in (0, 1, nb - 1, nb, nb + 1, 2 * nb, 2 * nb + 1):
+        for p in (0, 1, 17, nb - 1, nb):
+            for ln in (0, 1, nb - 1, nb, nb + 1, 2 * nb, 2 * nb + 1, 4 * nb + nb - 14, 8 * nb + 3):
                 ikey = "%s::update pos=%d len=%d@%s" % (name, p, ln, cfg)
                 total += 1
 
